@@ -93,6 +93,8 @@ pub enum ParseKind {
     DataFormat,
     OffsetJson,
     BuilderJson,
+    /// `serde_json::from_str::<Cursor>`
+    CursorJson,
 }
 
 #[derive(Clone, Debug, Serialize, Deserialize, PartialEq)]
@@ -921,8 +923,152 @@ const BUILDER_SEEDS: [&str; 8] = [
     r#"{"@type":"Annotation","@id":"!A18446744073709551616","target":{"@type":"DataSetSelector","annotationset":""},"data":[{"@type":"AnnotationData","@id":"!D1000000000000","set":"!S4294967296"}]}"#,
 ];
 
+const CURSOR_SEEDS: [&str; 6] = [
+    r#"{"@type":"BeginAlignedCursor","value":3}"#,
+    r#"{"@type":"EndAlignedCursor","value":-3}"#,
+    r#"{"@type":"EndAlignedCursor","value":0}"#,
+    r#"{"@type":"BeginAlignedCursor","value":-1}"#,
+    r#"{"@type":"FooCursor","value":"x"}"#,
+    r#"{"value":3}"#,
+];
+
+fn cycle(chars: &[char], n: usize, start: usize) -> String {
+    if chars.is_empty() {
+        return String::new();
+    }
+    (0..n).map(|i| chars[(start + i) % chars.len()]).collect()
+}
+
+/// A JSON seed made long and dense in multi-byte characters: every string that is not an "@type" is replaced by
+/// `fill_len` characters of `fill`, the top-level object gets a leading "@id" of `lead_len` characters of `lead`,
+/// and `phase` spaces in front shift every byte offset. With 3-byte characters and phases 0, 1, 2 every byte offset
+/// inside a string falls inside a character for two of the three phases.
+pub fn inflate(seed: &str, lead_len: usize, lead: &[char], fill_len: usize, fill: &[char], phase: usize) -> String {
+    fn rec(j: &mut J, name: Option<&str>, fill_len: usize, fill: &[char], n: &mut usize) {
+        match j {
+            J::Str(s) => {
+                if name != Some("@type") {
+                    *s = cycle(fill, fill_len, *n);
+                    *n += 1;
+                }
+            }
+            J::Arr(a) => a.iter_mut().for_each(|x| rec(x, None, fill_len, fill, n)),
+            J::Obj(m) => m.iter_mut().for_each(|(k, x)| rec(x, Some(k.as_str()), fill_len, fill, n)),
+            _ => {}
+        }
+    }
+    let Some(mut j) = J::parse(seed.as_bytes()) else { return format!("{}{}{}", " ".repeat(phase), cycle(lead, lead_len, 0), seed) };
+    let mut n = 0;
+    rec(&mut j, None, fill_len, fill, &mut n);
+    if let J::Obj(m) = &mut j {
+        if lead_len > 0 {
+            m.retain(|(k, _)| k != "@id");
+            m.insert(0, ("@id".to_string(), J::Str(cycle(lead, lead_len, 0))));
+        }
+    }
+    format!("{}{}", " ".repeat(phase), j.write())
+}
+
+fn char_boundaries(s: &str) -> Vec<usize> {
+    s.char_indices().map(|(i, _)| i).filter(|i| *i > 0).collect()
+}
+
+/// malformed long inputs for every JSON string parser, exhaustively over the positions that matter: (A) one dense
+/// document per seed cut at *every* character boundary (excerpts taken relative to the error position or to the
+/// end), (B) documents with a dense leading string of 60 / 400 / 1500 characters, shifted by 0..2 bytes, with a
+/// truncation, a missing member or a retyped member (excerpts taken at a fixed byte offset)
+fn enumerate_dense() -> Vec<Case> {
+    let mut v = vec![];
+    let mixed = ['Ü', '日', '😀'];
+    let three = ['日'];
+    let fill = ['é', '日', '😀', 'Ω'];
+    let mut groups: Vec<(ParseKind, Vec<&'static str>)> = vec![
+        (ParseKind::BuilderJson, BUILDER_SEEDS.to_vec()),
+        (ParseKind::OffsetJson, OFFSET_SEEDS.to_vec()),
+        (ParseKind::CursorJson, CURSOR_SEEDS.to_vec()),
+    ];
+    for (what, seeds) in groups.drain(..) {
+        for seed in seeds {
+            // (A)
+            let doc = inflate(seed, 20, &mixed, 6, &fill, 0);
+            for b in char_boundaries(&doc) {
+                v.push(Case::Parse { what: what.clone(), input: doc[..b].to_string() });
+            }
+            // (B)
+            let mut variants: Vec<String> = vec![];
+            for lead_len in [60usize, 400, 1500] {
+                for phase in 0..3 {
+                    variants.push(inflate(seed, lead_len, &three, 6, &fill, phase));
+                }
+            }
+            for phase in 0..4 {
+                variants.push(inflate(seed, 90, &mixed, 6, &fill, phase));
+            }
+            for doc in variants {
+                let bs = char_boundaries(&doc);
+                if bs.is_empty() {
+                    continue;
+                }
+                for k in [bs.len() / 2, 3 * bs.len() / 4, bs.len() - 1] {
+                    v.push(Case::Parse { what: what.clone(), input: doc[..bs[k]].to_string() });
+                }
+                if let Some(J::Obj(m)) = J::parse(doc.as_bytes()) {
+                    if m.len() > 1 {
+                        let mut fewer = m.clone();
+                        fewer.pop();
+                        v.push(Case::Parse { what: what.clone(), input: J::Obj(fewer).write() });
+                        let mut retyped = m.clone();
+                        if let Some(last) = retyped.last_mut() {
+                            last.1 = J::Bool(true);
+                        }
+                        v.push(Case::Parse { what: what.clone(), input: J::Obj(retyped).write() });
+                    }
+                }
+                v.push(Case::Parse { what: what.clone(), input: format!("{}]", doc) });
+            }
+        }
+    }
+    // the plain-string parsers: dense strings alone, after and before a valid spelling
+    for what in [ParseKind::Cursor, ParseKind::Type, ParseKind::SelectorKind, ParseKind::DataFormat] {
+        for n in [50usize, 100, 400, 1500] {
+            for phase in 0..3 {
+                let dense = format!("{}{}", "x".repeat(phase), cycle(&three, n, 0));
+                let dense2 = format!("{}{}", "1".repeat(phase), cycle(&mixed, n, 0));
+                let spelling = match what {
+                    ParseKind::Cursor => "-12",
+                    ParseKind::Type => "TextResource",
+                    ParseKind::SelectorKind => "TextSelector",
+                    _ => "json",
+                };
+                v.push(Case::Parse { what: what.clone(), input: dense.clone() });
+                v.push(Case::Parse { what: what.clone(), input: dense2.clone() });
+                v.push(Case::Parse { what: what.clone(), input: format!("{}{}", spelling, dense) });
+                v.push(Case::Parse { what: what.clone(), input: format!("{}{}", dense2, spelling) });
+            }
+        }
+    }
+    v
+}
+
+/// where the bytes of a text input fall (fixed-width excerpts in error paths cut at such offsets)
+fn text_shape(prefix: &str, s: &str, out: &mut Outcome) {
+    if s.len() >= 120 {
+        out.label(&format!("{}:long", prefix));
+        let non_ascii = s.bytes().filter(|b| *b >= 0x80).count();
+        if 2 * non_ascii > s.len() {
+            out.label(&format!("{}:long+dense-multibyte", prefix));
+        }
+    }
+    for at in [120usize, 128, 256, 1024, 4096] {
+        if s.len() > at && !s.is_char_boundary(at) {
+            out.label(&format!("{}:multibyte-across-byte-{}", prefix, at));
+        }
+    }
+}
+
 fn run_parse(what: &ParseKind, input: &str, out: &mut Outcome) {
     out.label(&format!("parse:{:?}", what));
+    text_shape("parse", input, out);
     phase("load");
     let r: Result<bool, PanicInfo> = match what {
         ParseKind::Cursor => catch(|| Cursor::try_from(input).is_ok()),
@@ -931,18 +1077,30 @@ fn run_parse(what: &ParseKind, input: &str, out: &mut Outcome) {
         ParseKind::DataFormat => catch(|| DataFormat::try_from(input).is_ok()),
         ParseKind::OffsetJson => catch(|| serde_json::from_str::<Offset>(input).is_ok()),
         ParseKind::BuilderJson => catch(|| AnnotationBuilder::from_json_str(input).is_ok()),
+        ParseKind::CursorJson => catch(|| serde_json::from_str::<Cursor>(input).is_ok()),
     };
     phase("done");
     out.checks += 1;
     match &r {
         Ok(true) => out.label("outcome:ok"),
-        Ok(false) => out.label("outcome:err"),
+        Ok(false) => {
+            out.label("outcome:err");
+            if input.len() >= 120 {
+                out.label("parse:long+rejected");
+                for at in [120usize, 256] {
+                    if input.len() > at && !input.is_char_boundary(at) {
+                        out.label(&format!("parse:long+rejected+multibyte-across-byte-{}", at));
+                    }
+                }
+            }
+        }
         Err(p) => {
             out.label("outcome:panic");
-            report_panic(out, &format!("parsing {:?} as {:?}", input, what), p);
+            let shown: String = input.chars().take(300).collect();
+            report_panic(out, &format!("parsing {:?} as {:?}", shown, what), p);
         }
     }
-    let valid_seed = PARSE_SEEDS.contains(&input) || OFFSET_SEEDS.contains(&input) || BUILDER_SEEDS.contains(&input);
+    let valid_seed = PARSE_SEEDS.contains(&input) || OFFSET_SEEDS.contains(&input) || BUILDER_SEEDS.contains(&input) || CURSOR_SEEDS.contains(&input);
     out.nontrivial = !valid_seed || matches!(r, Ok(false));
 }
 
@@ -961,15 +1119,24 @@ fn run_doc(hist: &History, mode: &Mode, muts: &[Mutation], work: &Path) -> Outco
     let mut docs = base.clone();
     let mut applied = 0;
     for m in muts {
-        if apply(&mut docs, m) {
+        let mut ls = vec![];
+        if apply_l(&mut docs, m, &mut ls) {
             applied += 1;
             out.label(&format!("mut:{}", m.kind()));
+            for l in &ls {
+                out.label(l);
+            }
         } else {
             out.label("mut:not-applicable");
         }
     }
     if docs.is_empty() {
         return out;
+    }
+    if applied > 0 {
+        if let Some(Ok(text)) = docs.first().map(|d| std::str::from_utf8(&d.1)) {
+            text_shape("doc", text, &mut out);
+        }
     }
     if mentions_device(&docs) {
         out.skip("names a device file");
@@ -1571,16 +1738,70 @@ fn field() -> BoxedStrategy<Field> {
         2 => Just(Field::Ref),
         1 => Just(Field::Type),
         2 => Just(Field::Top),
+        1 => Just(Field::Value),
     ]
     .boxed()
+}
+
+fn rename() -> BoxedStrategy<Mutation> {
+    // (identifiers that stay free of the separators of the formats, mostly: the documents should still load)
+    let part = || {
+        (prop_oneof![3 => Just(0u8), 1 => 0u8..HOSTILE_PREFIX.len() as u8], proptest::collection::vec(prop_oneof![9 => 0u8..31, 1 => 31u8..HOSTILE_CHARS.len() as u8], 0..=12), prop_oneof![5 => Just(0u8), 2 => 1u8..=HOSTILE_FIT.len() as u8])
+            .prop_map(|(pre, body, fit)| HStr { pre, body, num: 0, fit })
+    };
+    (part(), part(), any::<bool>()).prop_map(|(pre, post, values)| Mutation::Rename { pre, post, values }).boxed()
 }
 
 fn nchoice() -> BoxedStrategy<NChoice> {
     prop_oneof![3 => (0u8..4).prop_map(NChoice::Abs), 3 => (4u8..TEMP_N.len() as u8).prop_map(NChoice::Abs), 3 => (-2i8..=3).prop_map(NChoice::Rel)].boxed()
 }
 
-fn temp_choice() -> BoxedStrategy<StrChoice> {
+fn classic_temp() -> BoxedStrategy<StrChoice> {
     (prop_oneof![8 => 0u8..3, 2 => 3u8..8], nchoice()).prop_map(|(letter, n)| StrChoice::Temp { letter, n }).boxed()
+}
+
+/// index into HOSTILE_CHARS: the multi-byte ones (the first 31) more often than the ASCII ones
+fn hchar() -> BoxedStrategy<u8> {
+    prop_oneof![6 => 0u8..31, 2 => 31u8..HOSTILE_CHARS.len() as u8].boxed()
+}
+
+fn hbody() -> BoxedStrategy<Vec<u8>> {
+    prop_oneof![
+        6 => proptest::collection::vec(hchar(), 0..=4),
+        3 => proptest::collection::vec(hchar(), 4..=16),
+        1 => proptest::collection::vec(hchar(), 40..=90),
+    ]
+    .boxed()
+}
+
+/// any hostile string
+fn hstr() -> BoxedStrategy<HStr> {
+    (
+        prop_oneof![1 => Just(0u8), 4 => 0u8..HOSTILE_PREFIX.len() as u8],
+        hbody(),
+        prop_oneof![3 => Just(0u8), 2 => 1u8..=TEMP_N.len() as u8],
+        prop_oneof![5 => Just(0u8), 2 => 1u8..=HOSTILE_FIT.len() as u8],
+    )
+        .prop_map(|(pre, body, num, fit)| HStr { pre, body, num, fit })
+        .boxed()
+}
+
+/// '!' followed by anything: what a temporary id looks like at first sight
+fn bang_hstr() -> BoxedStrategy<HStr> {
+    (
+        // "!" three times, "!A" .. "!S", "!!" in HOSTILE_PREFIX
+        prop_oneof![6 => 2u8..5, 3 => 5u8..10, 1 => Just(10u8), 1 => Just(26u8)],
+        prop_oneof![1 => Just(vec![]), 6 => proptest::collection::vec(hchar(), 1..=3), 1 => proptest::collection::vec(hchar(), 4..=12)],
+        prop_oneof![2 => Just(0u8), 3 => 1u8..=TEMP_N.len() as u8],
+        prop_oneof![9 => Just(0u8), 1 => 1u8..=HOSTILE_FIT.len() as u8],
+    )
+        .prop_map(|(pre, body, num, fit)| HStr { pre, body, num, fit })
+        .boxed()
+}
+
+/// temporary ids: well-formed `!A<n>` and everything that merely starts like one
+fn temp_choice() -> BoxedStrategy<StrChoice> {
+    prop_oneof![3 => classic_temp(), 2 => bang_hstr().prop_map(StrChoice::Hostile)].boxed()
 }
 
 fn str_choice() -> BoxedStrategy<StrChoice> {
@@ -1590,6 +1811,7 @@ fn str_choice() -> BoxedStrategy<StrChoice> {
         3 => (0u8..SPECIAL_STR.len() as u8).prop_map(StrChoice::Special),
         1 => idx().prop_map(StrChoice::FileName),
         1 => Just(StrChoice::OwnFile),
+        4 => hstr().prop_map(StrChoice::Hostile),
     ]
     .boxed()
 }
@@ -1611,6 +1833,7 @@ fn file_mutations() -> BoxedStrategy<Mutation> {
         3 => idx().prop_map(|file| Mutation::FileSelfInclude { file }),
         2 => (idx(), idx()).prop_map(|(a, b)| Mutation::FileMutualInclude { a, b }),
         1 => idx().prop_map(|file| Mutation::FileCopyMain { file }),
+        3 => (idx(), hstr(), 0u8..3).prop_map(|(file, name, via)| Mutation::FileRename { file, name, via }),
     ]
     .boxed()
 }
@@ -1624,6 +1847,8 @@ fn json_mutation() -> BoxedStrategy<Mutation> {
         1 => (file_idx(), idx(), str_choice()).prop_map(|(file, nth, val)| Mutation::JStr { file, field: Field::Include, nth, val }),
         2 => (file_idx(), idx(), str_choice()).prop_map(|(file, nth, val)| Mutation::JStr { file, field: Field::Id, nth, val }),
         3 => (file_idx(), field(), idx(), str_choice()).prop_map(|(file, field, nth, val)| Mutation::JStr { file, field, nth, val }),
+        2 => (file_idx(), idx(), hstr()).prop_map(|(file, nth, h)| Mutation::JStr { file, field: Field::Value, nth, val: StrChoice::Hostile(h) }),
+        3 => rename(),
         5 => (file_idx(), field(), idx()).prop_map(|(file, field, nth)| Mutation::JDelete { file, field, nth }),
         4 => (file_idx(), field(), idx()).prop_map(|(file, field, nth)| Mutation::JDuplicate { file, field, nth }),
         4 => (file_idx(), field(), idx(), 0u8..3).prop_map(|(file, field, nth, to)| Mutation::JMove { file, field, nth, to }),
@@ -1645,6 +1870,10 @@ fn cell_choice() -> BoxedStrategy<CellChoice> {
         2 => idx().prop_map(CellChoice::AppendHarvest),
         2 => Just(CellChoice::DropLast),
         1 => (0u8..6).prop_map(CellChoice::Repeat),
+        3 => prop_oneof![hstr(), bang_hstr()].prop_map(CellChoice::Hostile),
+        2 => hstr().prop_map(CellChoice::AppendHostile),
+        2 => hstr().prop_map(CellChoice::PrependHostile),
+        1 => (hstr(), hstr()).prop_map(|(a, b)| CellChoice::Wrap(a, b)),
     ]
     .boxed()
 }
@@ -1665,6 +1894,18 @@ fn csv_mutation() -> BoxedStrategy<Mutation> {
         1 => idx().prop_map(|file| Mutation::FileDrop { file }),
         1 => (idx(), idx()).prop_map(|(a, b)| Mutation::FileSwap { a, b }),
         3 => byte_mutations(),
+        2 => rename(),
+        1 => (idx(), hstr(), 0u8..3).prop_map(|(file, name, via)| Mutation::FileRename { file, name, via }),
+    ]
+    .boxed()
+}
+
+fn len_choice() -> BoxedStrategy<LenChoice> {
+    prop_oneof![
+        3 => prop_oneof![Just(1i8), Just(-1i8), Just(2i8), -4i8..=100].prop_map(LenChoice::Delta),
+        6 => (0u8..HEAD_LENS.len() as u8).prop_map(LenChoice::Abs),
+        1 => (0u8..62).prop_map(LenChoice::Shift),
+        1 => Just(LenChoice::Indef),
     ]
     .boxed()
 }
@@ -1686,7 +1927,10 @@ fn cbor_mutation() -> BoxedStrategy<Mutation> {
         2 => any::<u16>().prop_map(|nth| Mutation::CSwap { nth }),
         3 => (any::<u16>(), 0u8..8).prop_map(|(nth, to)| Mutation::CRetype { nth, to }),
         2 => (any::<u16>(), str_choice()).prop_map(|(nth, val)| Mutation::CStr { nth, val }),
-        2 => (any::<u16>(), prop_oneof![Just(1i8), Just(-1i8), -4i8..=100]).prop_map(|(nth, delta)| Mutation::CHead { nth, delta }),
+        // lying length prefixes: every header of the document, and every path class of headers, gets its share
+        3 => (any::<u16>(), len_choice()).prop_map(|(nth, len)| Mutation::CLen { class: None, nth, len }),
+        4 => (any::<u16>(), any::<u16>(), len_choice()).prop_map(|(class, nth, len)| Mutation::CLen { class: Some(class), nth, len }),
+        1 => rename(),
         2 => any::<u16>().prop_map(|at| Mutation::Truncate { file: 0, at }),
         4 => (any::<u16>(), 0u8..8).prop_map(|(pos, bit)| Mutation::FlipBit { file: 0, pos, bit }),
         2 => (any::<u16>(), any::<u8>(), any::<u16>()).prop_map(|(src, len, dst)| Mutation::Splice { file: 0, src, len, dst }),
@@ -1744,6 +1988,60 @@ fn parse_strategy() -> BoxedStrategy<Case> {
             })
             .boxed()
     };
+    // long inputs dense in multi-byte characters, malformed at varied positions: any excerpt of fixed byte width
+    // that an error path takes falls inside a character more often than not
+    let chars = |n: std::ops::RangeInclusive<usize>| proptest::collection::vec(hchar(), n).prop_map(|v| v.into_iter().map(|i| HOSTILE_CHARS[i as usize % HOSTILE_CHARS.len()]).collect::<Vec<char>>());
+    let dense_json = move |seeds: Vec<&'static str>| -> BoxedStrategy<String> {
+        (
+            proptest::sample::select(seeds),
+            (chars(1..=4), prop_oneof![2 => 0usize..=60, 4 => 60usize..=200, 2 => 200usize..=600, 1 => 1400usize..=1600]),
+            (chars(1..=3), 0usize..=30),
+            0usize..=3,
+            proptest::collection::vec(json_mutation(), 0..=2),
+            // 0: whole, 1: cut at a character boundary, 2: a stray token at a character boundary, 3: cut + closed again
+            (0u8..=3, any::<u16>(), 0u8..INSERTS.len() as u8),
+        )
+            .prop_map(|(seed, (lead, lead_len), (fill, fill_len), phase, muts, (how, at, tok))| {
+                let doc = inflate(seed, lead_len, &lead, fill_len, &fill, phase);
+                let mut docs: DocSet = vec![("x.json".to_string(), doc.into_bytes())];
+                for m in &muts {
+                    apply(&mut docs, m);
+                }
+                let doc = docs.first().map(|d| String::from_utf8_lossy(&d.1).to_string()).unwrap_or_default();
+                let bs = char_boundaries(&doc);
+                if bs.is_empty() || how == 0 {
+                    return doc;
+                }
+                let b = bs[pick(at, bs.len())];
+                match how {
+                    1 => doc[..b].to_string(),
+                    2 => format!("{}{}{}", &doc[..b], INSERTS[tok as usize % INSERTS.len()], &doc[b..]),
+                    _ => format!("{}\"}}", &doc[..b]),
+                }
+            })
+            .boxed()
+    };
+    let dense_plain = |seeds: Vec<&'static str>| -> BoxedStrategy<String> {
+        (proptest::sample::select(seeds), hstr(), hstr(), 0u8..4)
+            .prop_map(|(seed, a, b, how)| {
+                let (mut a, mut b) = (a, b);
+                // (long more often than the general hostile string is)
+                if a.fit == 0 && how % 2 == 0 {
+                    a.fit = 1 + (a.pre % HOSTILE_FIT.len() as u8);
+                }
+                if b.fit == 0 && how == 3 {
+                    b.fit = 1 + (b.pre % HOSTILE_FIT.len() as u8);
+                }
+                b.pre = 0;
+                match how {
+                    0 => a.render(),
+                    1 => format!("{}{}", seed, a.render()),
+                    2 => format!("{}{}", a.render(), seed),
+                    _ => format!("{}{}{}", a.render(), seed, b.render()),
+                }
+            })
+            .boxed()
+    };
     prop_oneof![
         2 => edit(PARSE_SEEDS.to_vec()).prop_map(|input| Case::Parse { what: ParseKind::Cursor, input }),
         1 => edit(PARSE_SEEDS.to_vec()).prop_map(|input| Case::Parse { what: ParseKind::Type, input }),
@@ -1751,6 +2049,14 @@ fn parse_strategy() -> BoxedStrategy<Case> {
         1 => edit(PARSE_SEEDS.to_vec()).prop_map(|input| Case::Parse { what: ParseKind::DataFormat, input }),
         2 => json_edit(OFFSET_SEEDS.to_vec()).prop_map(|input| Case::Parse { what: ParseKind::OffsetJson, input }),
         2 => json_edit(BUILDER_SEEDS.to_vec()).prop_map(|input| Case::Parse { what: ParseKind::BuilderJson, input }),
+        1 => json_edit(CURSOR_SEEDS.to_vec()).prop_map(|input| Case::Parse { what: ParseKind::CursorJson, input }),
+        1 => dense_plain(PARSE_SEEDS.to_vec()).prop_map(|input| Case::Parse { what: ParseKind::Cursor, input }),
+        1 => dense_plain(PARSE_SEEDS.to_vec()).prop_map(|input| Case::Parse { what: ParseKind::Type, input }),
+        1 => dense_plain(PARSE_SEEDS.to_vec()).prop_map(|input| Case::Parse { what: ParseKind::SelectorKind, input }),
+        1 => dense_plain(PARSE_SEEDS.to_vec()).prop_map(|input| Case::Parse { what: ParseKind::DataFormat, input }),
+        3 => dense_json(OFFSET_SEEDS.to_vec()).prop_map(|input| Case::Parse { what: ParseKind::OffsetJson, input }),
+        4 => dense_json(BUILDER_SEEDS.to_vec()).prop_map(|input| Case::Parse { what: ParseKind::BuilderJson, input }),
+        1 => dense_json(CURSOR_SEEDS.to_vec()).prop_map(|input| Case::Parse { what: ParseKind::CursorJson, input }),
     ]
     .boxed()
 }
@@ -1772,7 +2078,7 @@ pub fn case_strategy(tier: Tier) -> BoxedStrategy<Case> {
         5 => (h(), prop_oneof![8 => Just(Mode::Csv), 1 => Just(Mode::DatasetFile { csv: true })], some_of(csv_mutation())).prop_map(|(hist, mode, muts)| Case::Doc { hist, mode, muts }),
         5 => (h(), Just(Mode::Cbor), some_of(cbor_mutation())).prop_map(|(hist, mode, muts)| Case::Doc { hist, mode, muts }),
         1 => (h(), Just(Mode::ResourceFile { json: false }), some_of(byte_mutations())).prop_map(|(hist, mode, muts)| Case::Doc { hist, mode, muts }),
-        1 => parse_strategy(),
+        2 => parse_strategy(),
     ]
     .boxed()
 }
@@ -1786,7 +2092,7 @@ impl Property for C19 {
         "C19"
     }
     fn rule(&self) -> String {
-        "case = a valid document set written from the final store of a generated history (STAM JSON: one document through from_str / from_file, resources and datasets in @include stand-off files, an included sub-store; STAM CSV store; CBOR; plus annotate_from_file, AnnotationBuilder::from_json_str + annotate, AnnotationDataSet::from_file, TextResource::from_file) with 1-3 mutations applied: structured JSON edits on an order-preserving tree (delete / duplicate / reorder / retype a member; numbers 0, -1, 2^31, 2^63, isize::MIN, 2^64, 10^30; strings replaced by ids of other items (dangling, forward and cyclic references, duplicate ids), by temporary ids !A<n> !D<n> !K<n> with n from 0 to 10^30 or relative to the list length, by file names (missing, own file, other file); added members; self- and mutually-including files), CSV cell / row / column edits (unknown and mismatched selector kinds, ';' lists of unequal length, empty cells, huge offsets), CBOR edits on a generic decoded tree (handles and lengths changed, elements deleted / duplicated / swapped / retyped, lying length prefixes) and byte edits (truncate, flip, splice, insert); or a string for Cursor / Type / SelectorKind / DataFormat::try_from, Offset JSON, AnnotationBuilder::from_json_str; or a raw fuzz input. Every case runs in a child process with a counting allocator. Oracle: no panic; the child survives (no stack overflow, no failed allocation); peak live bytes during the load <= 64 MiB + 4096 x input bytes; allocation calls <= 10^6 + 10^3 x input bytes; if the loader returns Ok: the forward references of the store are sound (every handle names a live item, annotation selectors point backwards), then full observation, the model-free C01-C03 consistency battery, to_json_string and five queries complete without panic and find the store consistent. Whatever goes wrong when a store returned by the CBOR reader is used (it validates nothing) is grouped under the signature prefix cbor-unvalidated|. Non-trivial = the mutated documents differ in meaning from their parents and every changed file still parses syntactically in its format (so the loader gets past syntax); for strings: not one of the valid spellings. Distinct = distinct case JSON.".into()
+        "case = a valid document set written from the final store of a generated history (STAM JSON: one document through from_str / from_file, resources and datasets in @include stand-off files, an included sub-store; STAM CSV store; CBOR; plus annotate_from_file, AnnotationBuilder::from_json_str + annotate, AnnotationDataSet::from_file, TextResource::from_file) with 1-3 mutations applied: structured JSON edits on an order-preserving tree (delete / duplicate / reorder / retype a member; numbers 0, -1, 2^31, 2^63, isize::MIN, 2^64, 10^30; strings replaced by ids of other items (dangling, forward and cyclic references, duplicate ids), by temporary ids !A<n> !D<n> !K<n> with n from 0 to 10^30 or relative to the list length, by file names (missing, own file, other file); added members; self- and mutually-including files), CSV cell / row / column edits (unknown and mismatched selector kinds, ';' lists of unequal length, empty cells, huge offsets), CBOR edits on a generic decoded tree (handles and lengths changed, elements deleted / duplicated / swapped / retyped; lying length prefixes: the definite-length headers of the document are enumerated with their path class - chain of container kinds, record positions kept, list positions not - and one of them, chosen by index over all headers or over the headers of one class, announces the real length +-d, 0 .. 2^16 .. 2^31 .. 2^32 .. 2^63 .. u64::MAX, the real length x 2^k or an indefinite length, the rest of the file unchanged) and byte edits (truncate, flip, splice, insert). Strings put into ids, references, keys, values, file names and CSV cells also come from a hostile alphabet: a prefix the library tests for ('!', '!A', '_:', 'http', 'file://', '#', ';' ...) followed by 0-90 characters of 1-4 bytes in upper / lower / title case, digits and marks, optionally a number, optionally stretched beyond 120 / 256 / 1024 / 4096 bytes; in CSV also before and after the ';' of a list; and one mutation renames every identifier of the document set consistently to such a string + id + such a string (the documents still load). Or a string for Cursor / Type / SelectorKind / DataFormat::try_from, Offset and Cursor JSON, AnnotationBuilder::from_json_str: valid spellings edited, and long inputs dense in multi-byte characters (every free string of a JSON seed replaced, a leading member of up to 1600 characters, 0-3 bytes of shift) that are malformed by the JSON mutators, by a cut or a stray token at a character boundary; enumerated: every seed document made dense and cut at every character boundary, and with a leading string of 60 / 400 / 1500 three-byte characters shifted by 0, 1, 2 bytes (every byte offset inside it falls inside a character for two of the three shifts) cut, with a member missing or retyped. Or a raw fuzz input. Every case runs in a child process with a counting allocator. Oracle: no panic; the child survives (no stack overflow, no failed allocation); peak live bytes during the load <= 64 MiB + 4096 x input bytes; allocation calls <= 10^6 + 10^3 x input bytes; if the loader returns Ok: the forward references of the store are sound (every handle names a live item, annotation selectors point backwards), then full observation, the model-free C01-C03 consistency battery, to_json_string and five queries complete without panic and find the store consistent. Whatever goes wrong when a store returned by the CBOR reader is used (it validates nothing) is grouped under the signature prefix cbor-unvalidated|. Non-trivial = the mutated documents differ in meaning from their parents and every changed file still parses syntactically in its format (so the loader gets past syntax); for strings: not one of the valid spellings. Distinct = distinct case JSON.".into()
     }
     fn assumptions(&self) -> Vec<String> {
         vec![
@@ -1818,6 +2124,10 @@ impl Property for C19 {
         for s in BUILDER_SEEDS {
             v.push(Case::Parse { what: ParseKind::BuilderJson, input: s.to_string() });
         }
+        for s in CURSOR_SEEDS {
+            v.push(Case::Parse { what: ParseKind::CursorJson, input: s.to_string() });
+        }
+        v.extend(enumerate_dense());
         v
     }
     fn run(&self, case: &Case) -> Outcome {
@@ -1835,7 +2145,25 @@ impl Property for C19 {
             if (get("mutated-and-ok") as f64) < 0.15 * mutated.max(1) as f64 {
                 v.push(format!("only {} of {} mutated document sets still load Ok (< 15%)", get("mutated-and-ok"), mutated));
             }
-            for l in ["fmt:json", "fmt:csv", "fmt:cbor", "mut:json.tempid", "mut:json.include", "mut:csv.cell", "mut:cbor.integer", "outcome:err"] {
+            for l in [
+                "fmt:json",
+                "fmt:csv",
+                "fmt:cbor",
+                "mut:json.tempid",
+                "mut:json.include",
+                "mut:csv.cell",
+                "mut:cbor.integer",
+                "outcome:err",
+                "mut:cbor.length-prefix",
+                "headlen:2^31..2^32",
+                "headlen:2^63..u64::MAX",
+                "str:bang+multibyte-upper",
+                "str:bang+letter+digits",
+                "str:prefix+multibyte",
+                "str:multibyte-next-to-semicolon",
+                "str:renamed-consistently",
+                "parse:long+rejected+multibyte-across-byte-120",
+            ] {
                 if get(l) == 0 {
                     v.push(format!("label {} never occurred", l));
                 }
@@ -1944,6 +2272,29 @@ pub fn emit_corpus(dir: &Path, n: usize) -> Result<usize, String> {
             let bytes = if *target == "c19_cbor" { docs[0].1.clone() } else { container_join(&docs) };
             std::fs::write(dir.join(target).join(format!("seed-{:03}-{}", i, mode.name())), bytes).map_err(|e| e.to_string())?;
             written += 1;
+            if i < 9 {
+                // the same documents with long non-ASCII identifiers everywhere (they still load), one of them in
+                // the '!' + letter form of a temporary id: byte-level mutation does not invent multi-byte text
+                let mut docs = docs;
+                let fit = [0u8, 2, 4][i % 3];
+                let dense = Mutation::Rename {
+                    pre: HStr { pre: 0, body: vec![0, 17, 25, 2], num: 0, fit },
+                    post: HStr { pre: 0, body: vec![14, 26, 3], num: 0, fit: 0 },
+                    values: i % 2 == 0,
+                };
+                let bang = Mutation::JStr {
+                    file: 0,
+                    field: Field::IdOf((i % ID_LISTS.len()) as u8),
+                    nth: 0,
+                    val: StrChoice::Hostile(HStr { pre: 2, body: vec![[0u8, 2, 14, 26][i % 4], 17], num: (i % 3) as u8, fit: 0 }),
+                };
+                if apply(&mut docs, &dense) {
+                    apply(&mut docs, &bang);
+                    let bytes = if *target == "c19_cbor" { docs[0].1.clone() } else { container_join(&docs) };
+                    std::fs::write(dir.join(target).join(format!("seed-{:03}-{}-nonascii", i, mode.name())), bytes).map_err(|e| e.to_string())?;
+                    written += 1;
+                }
+            }
         }
     }
     Ok(written)
